@@ -28,6 +28,7 @@ type OptSet struct {
 	Backend string   `json:"backend"` // go | fastgo
 	Opts    []string `json:"opts"`    // backend options
 	Plugin  bool     `json:"plugin"`  // add -p rec=<recording plugin>
+	Patch   string   `json:"patch"`   // the plugin also patches this generated file (path below the output directory)
 }
 
 func (o OptSet) gArg() string {
@@ -41,6 +42,9 @@ func (o OptSet) gArg() string {
 func (o OptSet) Symbolic() string {
 	s := append([]string{"thriftgo"}, o.Pre...)
 	s = append(s, "-o", "<out>", "-g", o.gArg())
+	if o.Patch != "" {
+		s = append([]string{"C07_PATCH_FILE=" + o.Patch}, s...)
+	}
 	if o.Plugin {
 		s = append(s, "--plugin-time-limit", "0", "-p", "rec=<c07plugin>")
 	}
@@ -68,6 +72,10 @@ var optSets = []OptSet{
 	{Name: "raw_struct-meta", Backend: "go", Opts: []string{"template=raw_struct", "gen_type_meta"}},
 	{Name: "trim-reflection", Backend: "go", Opts: []string{"trim_idl", "with_reflection"}},
 	{Name: "apache_adaptor", Backend: "go", Opts: []string{"apache_adaptor", "reorder_fields"}},
+	{Name: "recurse-slim", Pre: []string{"-r"}, Backend: "go", Opts: []string{"template=slim"}},
+	{Name: "recurse-raw_struct", Pre: []string{"-r"}, Backend: "go", Opts: []string{"template=raw_struct", "gen_type_meta"}},
+	{Name: "slim-helpers", Backend: "go", Opts: []string{"template=slim", "enable_nested_struct", "gen_setter", "gen_deep_equal", "keep_unknown_fields", "with_reflection"}},
+	{Name: "streamx", Backend: "go", Opts: []string{"thrift_streaming", "streamx", "typed_enum_string", "compatible_names"}},
 	{Name: "apache_warning", Backend: "go", Opts: []string{"apache_warning", "gen_db_tag", "snake_style_json_tag"}},
 }
 
@@ -136,7 +144,7 @@ func runOne(t Tools, o OptSet, idl, cwd, out string, g int) RunResult {
 	for attempt := 0; attempt < 4; attempt++ {
 		cmd := exec.Command(t.Thriftgo, args...)
 		cmd.Dir = cwd
-		cmd.Env = append(os.Environ(), fmt.Sprintf("GOMAXPROCS=%d", g), "C07_RECORD="+rec)
+		cmd.Env = append(os.Environ(), fmt.Sprintf("GOMAXPROCS=%d", g), "C07_RECORD="+rec, "C07_PATCH_FILE="+o.Patch)
 		eb.Reset()
 		cmd.Stderr = &eb
 		cmd.Stdout = &eb
